@@ -146,7 +146,10 @@ def content_recipes(nfiles_so_far):
     sized = st.tuples(kinds, seeds, kb, st.one_of(delta, delta, st.integers(2, 4000)),
                       st.lists(st.integers(0, 3), min_size=1, max_size=4), st.integers(0, 3)).map(list).map(
         lambda l: tuple(l[:4]) + ((l[4],) if l[0] == "mix" else (l[5],) if l[0] == "cat" else ()))
-    return st.one_of(small, small, sized, sized, sized)
+    # files that begin with a hole, or have one between data blocks (the block writer learns about a new file from its first block)
+    holes = st.tuples(seeds, st.sampled_from([2, 2, 3, 4]), st.one_of(delta, st.integers(2, 4000)),
+                      st.sampled_from([[0, 1], [0, 2], [0, 0, 1], [1, 0, 1], [0, 3], [0, 1, 0]])).map(lambda t: ("mix", t[0], t[1], t[2], t[3]))
+    return st.one_of(small, small, sized, sized, sized, holes)
 
 
 @st.composite
